@@ -4,6 +4,7 @@
 EXTENDS ListSeq
 IdxQuick    == -5 .. 5
 IdxThorough == -6 .. 6
+IdxSmall    == -3 .. 3
 ObsEmit(op, args, ret, post) ==
     PrintT(ToJson([pre |-> Pre, op |-> op, args |-> args, ret |-> ret, post |-> post]))
 ================================================================================
